@@ -30,7 +30,7 @@ fn real_specs(tier: Tier, property: &str) -> Vec<Spec> {
             }
             Tier::Thorough => {
                 let mut v = vec![Spec::PSpace { max_fields: 3, recursion: true }, Spec::Files { k: 0, cap: 0 }, g(2, 2, 3, 2), g(1, 2, 3, 3), g(2, 2, 2, 3)];
-                v.extend(all_seed_nbh(1, 1, 2000));
+                v.extend(all_seed_nbh(1, 1, 600));
                 v
             }
         };
@@ -42,8 +42,8 @@ fn real_specs(tier: Tier, property: &str) -> Vec<Spec> {
             v
         }
         Tier::Thorough => {
-            let mut v = vec![g(2, 2, 3, 2), Spec::Files { k: 0, cap: 0 }, g(1, 2, 3, 3), g(2, 2, 2, 3), g(2, 3, 3, 2), g(3, 2, 3, 2)];
-            v.extend(all_seed_nbh(1, 1, 2000));
+            let mut v = vec![g(2, 2, 3, 2), g(2, 0, 3, 2), g(2, 1, 3, 2), Spec::Files { k: 0, cap: 0 }, g(1, 2, 3, 3), g(2, 2, 2, 3), gsym(2, 3, 3, 2)];
+            v.extend(all_seed_nbh(1, 1, 600));
             v
         }
     }
